@@ -30,6 +30,7 @@ type Conn struct {
 	writerDone chan struct{}
 	closed     bool
 	ReadHook   func(n int) // called by the reader goroutine after each read (C14 slow reader)
+	Split      Splitter    // optional: how Send / SendParts cut their bytes into separate Write calls
 
 	// protocol state (control connections)
 	nextID uint32
@@ -92,10 +93,49 @@ func (c *Conn) reader() {
 	}
 }
 
-// Send writes b with a single Write call (one "segment") and waits for quiescence.
+// Splitter decides the segmentation of outgoing bytes: Cuts returns cut offsets inside one
+// message, Boundary whether two adjacent messages of one SendParts call are separated.
+type Splitter interface {
+	Cuts(b []byte) []int
+	Boundary() bool
+}
+
+// Send writes b and waits for quiescence: with a single Write call (one "segment"), or cut
+// into several Write calls when a Splitter is installed.
 func (c *Conn) Send(b []byte) {
+	if c.Split != nil {
+		c.SendSegments(b, c.Split.Cuts(b))
+		return
+	}
 	c.SendAsync(b)
 	synctest.Wait()
+}
+
+// SendParts sends several messages back to back.  Without a Splitter each message is one
+// Write followed by a wait (the baseline segmentation); with one, the messages are
+// concatenated and cut as the Splitter says (possibly coalescing messages into one Write).
+func (c *Conn) SendParts(parts [][]byte) {
+	if c.Split == nil {
+		for _, p := range parts {
+			c.SendAsync(p)
+			synctest.Wait()
+		}
+		return
+	}
+	var whole []byte
+	var cuts []int
+	for i, p := range parts {
+		if i > 0 && c.Split.Boundary() {
+			cuts = append(cuts, len(whole))
+		}
+		for _, k := range c.Split.Cuts(p) {
+			if k > 0 && k < len(p) {
+				cuts = append(cuts, len(whole)+k)
+			}
+		}
+		whole = append(whole, p...)
+	}
+	c.SendSegments(whole, cuts)
 }
 
 // SendAsync issues the write without waiting.
